@@ -1,10 +1,10 @@
 /-
 Lemmas.Proxy — the specification side of C18 (`idealRun`: what a client observes
-when it talks to the services directly) and the invariants of the bridge's
-routing state used by Props/C18.
+when it talks to the services directly), the invariants of the bridge's routing
+state used by Props/C18, and the refinement of the frame-level router by the
+byte-level loop.
 -/
 import VarlinkVerif.Model.Proxy
-import VarlinkVerif.Model.ProxyFixed
 import VarlinkVerif.Props.C04
 
 namespace VV
@@ -17,23 +17,23 @@ namespace Proxy
     without a dot answered with the standard `InterfaceNotFound` while the session
     goes on.  `dead` lists the addresses whose direct connection has been closed
     by the service or upgraded. -/
-def idealRun (w : World) (resolverAddr : String) : Nat → List String → List Request → List (List Reply)
+def idealRun (w : World) : Nat → List String → List Request → List (List Reply)
   | _, _, [] => []
   | k, dead, r0 :: rs =>
     let r := rewrite r0
     match selectIface r with
-    | .noDot => localReply r (errInterfaceNotFound r.method) :: idealRun w resolverAddr k dead rs
+    | .noDot => localReply r (errInterfaceNotFound r.method) :: idealRun w k dead rs
     | .badArgs =>
       (if r.parameters.isNone then localReply r (errInvalidParameter "parameters") else []) ::
-        idealRun w resolverAddr k dead rs
+        idealRun w k dead rs
     | .iface i =>
-      match (resolveAddr w resolverAddr k i).bind (fun a => (w.svcAt a).map fun s => (a, s)) with
-      | none => localReply r (errInterfaceNotFound i) :: idealRun w resolverAddr (k + 1) dead rs
+      match (resolveAddr w k i).bind (fun a => (w.svcAt a).map fun s => (a, s)) with
+      | none => localReply r (errInterfaceNotFound i) :: idealRun w (k + 1) dead rs
       | some (a, svc) =>
-        if dead.contains a then [] :: idealRun w resolverAddr (k + 1) dead rs
+        if dead.contains a then [] :: idealRun w (k + 1) dead rs
         else
           let res := callOne w.consts svc r
-          res.out :: idealRun w resolverAddr (k + 1)
+          res.out :: idealRun w (k + 1)
             (if !res.ok || res.upgraded.isSome then a :: dead else dead) rs
 
 /-- the resolver's answers do not change while the bridge runs -/
@@ -42,122 +42,165 @@ def StaticResolver (w : World) : Prop := ∀ k k' i, w.resolve k i = w.resolve k
 /-- the service answers with `continues`-marked replies followed by exactly one final reply -/
 def Final (out : List Reply) : Prop := forwardReplies out = (out, true)
 
-/-- the hypotheses of `C18_transparent_partial` for one request -/
+/-- the hypotheses of `C18_transparent_partial` for one request: nothing about dots,
+    resolution, reachability or the resolver's address — only that a
+    `GetInterfaceDescription` is well typed when it has parameters, that the
+    interface name is not empty, and that a service that *is* reached gets no
+    `upgrade` flag, answers properly and keeps the connection -/
 def Good (w : World) (r0 : Request) : Prop :=
-  ∃ i a svc, selectIface (rewrite r0) = .iface i ∧ i ≠ "" ∧
-    resolveAddr w fixedResolverAddr 0 i = some a ∧ w.svcAt a = some svc ∧
-    (rewrite r0).upgrade ≠ some true ∧
-    (callOne w.consts svc (rewrite r0)).ok = true ∧
-    (callOne w.consts svc (rewrite r0)).upgraded = none ∧
-    (isOneway (rewrite r0) = true ∨ Final (callOne w.consts svc (rewrite r0)).out)
+  match selectIface (rewrite r0) with
+  | .noDot => True
+  | .badArgs => (rewrite r0).parameters = none
+  | .iface i =>
+    i ≠ "" ∧
+    ∀ a svc, resolveAddr w 0 i = some a → w.svcAt a = some svc →
+      (rewrite r0).upgrade ≠ some true ∧
+      (callOne w.consts svc (rewrite r0)).ok = true ∧
+      (callOne w.consts svc (rewrite r0)).upgraded = none ∧
+      (isOneway (rewrite r0) = true ∨ Final (callOne w.consts svc (rewrite r0)).out)
 
-/-- address of the service a request is for -/
-def addrOf (w : World) (r0 : Request) : Option String :=
-  (target w fixedResolverAddr 0 r0).map (·.1)
+/-- address of the service a request is for (if it can be routed at all) -/
+def addrOf (w : World) (r0 : Request) : Option String := (target w 0 r0).map (·.1)
 
-/-- the reply group of the direct call -/
-def expectedGroup (w : World) (r0 : Request) : List Reply :=
-  match target w fixedResolverAddr 0 r0 with
-  | some (_, s) => (callOne w.consts s (rewrite r0)).out
+/-- what the bridge forwards for a request: the rewritten request to the resolved address, or nothing -/
+def sentOf (w : World) (r0 : Request) : List (String × Request) :=
+  match target w 0 r0 with
+  | some (a, _) => [(a, rewrite r0)]
   | none => []
+
+/-- the reply group of one request when no connection has died -/
+def expectedGroup (w : World) (r0 : Request) : List Reply :=
+  match selectIface (rewrite r0) with
+  | .noDot => localReply (rewrite r0) (errInterfaceNotFound (rewrite r0).method)
+  | .badArgs =>
+    if (rewrite r0).parameters.isNone then localReply (rewrite r0) (errInvalidParameter "parameters") else []
+  | .iface i =>
+    match target w 0 r0 with
+    | some (_, s) => (callOne w.consts s (rewrite r0)).out
+    | none => localReply (rewrite r0) (errInterfaceNotFound i)
 
 /-- the cache is coherent: it holds the address the cached interface resolves to -/
 def Coherent (w : World) (st : St) : Prop :=
-  st.lastIface = "" ∨ resolveAddr w fixedResolverAddr 0 st.lastIface = some st.address
+  st.lastIface = "" ∨ resolveAddr w 0 st.lastIface = some st.address
 
-theorem resolveAddr_static (w : World) (hs : StaticResolver w) (ra : String) (k : Nat) (i : String) :
-    resolveAddr w ra k i = resolveAddr w ra 0 i := by
+theorem resolveAddr_static (w : World) (hs : StaticResolver w) (k : Nat) (i : String) :
+    resolveAddr w k i = resolveAddr w 0 i := by
   unfold resolveAddr
   split
   · rfl
   · exact hs k 0 i
 
-theorem target_of_good {w : World} {r0 : Request} {i a : String} {svc : Service}
-    (h1 : selectIface (rewrite r0) = .iface i) (h2 : resolveAddr w fixedResolverAddr 0 i = some a)
-    (h3 : w.svcAt a = some svc) : target w fixedResolverAddr 0 r0 = some (a, svc) := by
-  simp [target, h1, h2, h3]
+theorem route_spec (w : World) (hs : StaticResolver w) (st : St)
+    (hc : Coherent w st) (i : String) (hne : i ≠ "") :
+    (route w st i).1 = resolveAddr w 0 i ∧ Coherent w (route w st i).2 := by
+  unfold route
+  by_cases h1 : (i == st.lastIface) = true
+  · have e : i = st.lastIface := by simpa using h1
+    rw [if_pos h1]
+    rcases hc with h0 | h0
+    · exact absurd (e.trans h0) hne
+    · exact ⟨by rw [e, h0], Or.inr h0⟩
+  · rw [if_neg h1]
+    by_cases h2 : (i == resolverIfaceName) = true
+    · rw [if_pos h2]
+      have hr : resolveAddr w 0 i = some w.resolverAddr := by unfold resolveAddr; rw [if_pos h2]
+      exact ⟨hr.symm, Or.inr hr⟩
+    · rw [if_neg h2]
+      have hr : resolveAddr w 0 i = w.resolve st.nResolve i := by
+        unfold resolveAddr; rw [if_neg h2]; exact hs 0 st.nResolve i
+      cases hres : w.resolve st.nResolve i with
+      | none =>
+        refine ⟨by rw [hr, hres], ?_⟩
+        rcases hc with h0 | h0
+        · exact Or.inl h0
+        · exact Or.inr h0
+      | some a =>
+        refine ⟨by rw [hr, hres], Or.inr ?_⟩
+        show resolveAddr w 0 i = some a
+        rw [hr, hres]
 
-/-- one loop iteration under the hypotheses: the request is forwarded to the
-    service it resolves to, exactly the service's replies come back, the loop
-    goes on and the cache stays coherent -/
-theorem step_good (w : World) (hs : StaticResolver w) (st : St) (hc : Coherent w st) (r0 : Request)
-    (hg : Good w r0) :
-    ∃ st' a svc, target w fixedResolverAddr 0 r0 = some (a, svc) ∧
-      step w st r0 = .next (callOne w.consts svc (rewrite r0)).out st' [(a, rewrite r0)] ∧ Coherent w st' := by
-  obtain ⟨i, a, svc, hsel, hne, hres, hsvc, hup, hok, hnu, hfin⟩ := hg
-  -- routing
-  have hroute : ∃ st', route w st i = some (a, st') ∧ Coherent w st' := by
-    unfold route
-    by_cases h1 : (i == st.lastIface) = true
-    · have e : i = st.lastIface := by simpa using h1
-      rw [if_pos h1]
-      refine ⟨st, ?_, hc⟩
-      rcases hc with h0 | h0
-      · exact absurd (e.trans h0) hne
-      · rw [← e, hres] at h0
-        simp only [Option.some.injEq] at h0
-        rw [h0]
-    · rw [if_neg h1]
-      by_cases h2 : (i == resolverIfaceName) = true
-      · rw [if_pos h2]
-        have ha : a = fixedResolverAddr := by
-          unfold resolveAddr at hres
-          rw [if_pos h2] at hres
-          exact (Option.some.inj hres).symm
-        refine ⟨_, by rw [ha], Or.inr ?_⟩
-        show resolveAddr w fixedResolverAddr 0 i = some fixedResolverAddr
-        rw [hres, ha]
-      · rw [if_neg h2]
-        have hr : w.resolve st.nResolve i = some a := by
-          have := hres
-          unfold resolveAddr at this
-          rw [if_neg h2] at this
-          rw [hs st.nResolve 0 i]; exact this
-        rw [hr]
-        exact ⟨_, rfl, Or.inr hres⟩
-  obtain ⟨st', hr, hc'⟩ := hroute
-  refine ⟨st', a, svc, target_of_good hsel hres hsvc, ?_, hc'⟩
-  unfold step
-  simp only [hsel, hr, hsvc]
-  by_cases how : isOneway (rewrite r0) = true
-  · rw [if_pos how, C04_no_reply_for_oneway w.consts svc (rewrite r0) how]
-  · rw [if_neg how]
-    have hfin' : Final (callOne w.consts svc (rewrite r0)).out := by
-      rcases hfin with h | h
-      · exact absurd h how
-      · exact h
-    have h1 : (!(callOne w.consts svc (rewrite r0)).ok && (callOne w.consts svc (rewrite r0)).out != [] &&
-        w.hupWins (rewrite r0)) = false := by simp [hok]
-    rw [h1]
-    have h2 : ((rewrite r0).upgrade == some true) = false := by
-      cases hu : (rewrite r0).upgrade with
-      | none => rfl
-      | some b => cases b with
-        | false => rfl
-        | true => exact absurd hu hup
-    simp only [Bool.false_eq_true, if_false, h2]
-    unfold Final at hfin'
-    rw [hfin']
-    simp
+/-- one request through the loop is one step of the specification: the loop goes on, the
+    request is forwarded (unchanged but for the `GetInfo` redirection) exactly when it can be
+    routed, the replies are the expected group, the cache stays coherent -/
+theorem step_good (w : World) (hs : StaticResolver w) (st : St)
+    (hc : Coherent w st) (r0 : Request) (hg : Good w r0) (k : Nat) (rs : List Request) :
+    ∃ st', step w st r0 = .next (expectedGroup w r0) st' (sentOf w r0) ∧ Coherent w st' ∧
+      ∃ k', idealRun w k [] (r0 :: rs) = expectedGroup w r0 :: idealRun w k' [] rs := by
+  unfold Good at hg
+  unfold step expectedGroup sentOf target
+  cases hsel : selectIface (rewrite r0) with
+  | noDot =>
+    refine ⟨st, ?_, hc, k, ?_⟩
+    · simp only [hsel]
+    · simp [idealRun, hsel]
+  | badArgs =>
+    rw [hsel] at hg
+    simp only at hg
+    refine ⟨st, ?_, hc, k, ?_⟩
+    · simp [hsel, hg]
+    · simp [idealRun, hsel, hg]
+  | iface i =>
+    rw [hsel] at hg
+    obtain ⟨hne, hsvc⟩ := hg
+    obtain ⟨hr1, hr2⟩ := route_spec w hs st hc i hne
+    have hk : resolveAddr w k i = resolveAddr w 0 i := resolveAddr_static w hs k i
+    cases hrf : route w st i with
+    | mk oa st' =>
+      rw [hrf] at hr1 hr2
+      simp only at hr1 hr2
+      cases oa with
+      | none =>
+        refine ⟨st', ?_, hr2, k + 1, ?_⟩
+        · simp only [hsel, hrf, ← hr1, Option.bind_none]
+        · simp [idealRun, hsel, hk, ← hr1]
+      | some a =>
+        cases hs' : w.svcAt a with
+        | none =>
+          refine ⟨st', ?_, hr2, k + 1, ?_⟩
+          · simp only [hsel, hrf, hs', ← hr1, Option.bind_some, Option.map_none]
+          · simp [idealRun, hsel, hk, ← hr1, hs']
+        | some svc =>
+          obtain ⟨hup, hok, hnu, hfin⟩ := hsvc a svc hr1.symm hs'
+          have hideal : idealRun w k [] (r0 :: rs) =
+              (callOne w.consts svc (rewrite r0)).out :: idealRun w (k + 1) [] rs := by
+            simp [idealRun, hsel, hk, ← hr1, hs', hok, hnu]
+          refine ⟨st', ?_, hr2, k + 1, ?_⟩
+          · simp only [hsel, hrf, hs', ← hr1, Option.bind_some, Option.map_some]
+            by_cases how : isOneway (rewrite r0) = true
+            · simp only [how, if_true]
+              rw [C04_no_reply_for_oneway w.consts svc (rewrite r0) how]
+            · have hfin' : forwardReplies (callOne w.consts svc (rewrite r0)).out =
+                  ((callOne w.consts svc (rewrite r0)).out, true) := by
+                rcases hfin with h | h
+                · exact absurd h how
+                · exact h
+              have h2 : ((rewrite r0).upgrade == some true) = false := by
+                cases hu : (rewrite r0).upgrade with
+                | none => rfl
+                | some b => cases b with
+                  | false => rfl
+                  | true => exact absurd hu hup
+              simp [how, h2, hfin']
+          · simp only [hsel, ← hr1, hs', Option.bind_some, Option.map_some]
+            exact hideal
 
 theorem run_good (w : World) (hs : StaticResolver w) :
-    ∀ (rs : List Request) (st : St), Coherent w st → (∀ r ∈ rs, Good w r) →
+    ∀ (rs : List Request) (st : St) (k : Nat), Coherent w st → (∀ r ∈ rs, Good w r) →
       (run w st (rs.map .req)).status = .eof ∧
       (run w st (rs.map .req)).consumed = rs.length ∧
       (run w st (rs.map .req)).groups = rs.map (expectedGroup w) ∧
-      (run w st (rs.map .req)).sent = rs.filterMap (fun r => (addrOf w r).map fun a => (a, rewrite r)) := by
+      (run w st (rs.map .req)).groups = idealRun w k [] rs ∧
+      (run w st (rs.map .req)).sent = (rs.map (sentOf w)).flatten := by
   intro rs
   induction rs with
-  | nil => intro st _ _; simp [run]
+  | nil => intro st k _ _; simp [run, idealRun]
   | cons r rs ih =>
-    intro st hc hg
-    obtain ⟨st', a, svc, ht, hstep, hc'⟩ := step_good w hs st hc r (hg r (by simp))
-    have := ih st' hc' (fun x hx => hg x (by simp [hx]))
-    obtain ⟨i1, i2, i3, i4⟩ := this
+    intro st k hc hg
+    obtain ⟨st', hstep, hc', k', hideal⟩ := step_good w hs st hc r (hg r (by simp)) k rs
+    have := ih st' k' hc' (fun x hx => hg x (by simp [hx]))
+    obtain ⟨i1, i2, i3, i4, i5⟩ := this
     simp only [List.map_cons, run, hstep]
-    refine ⟨i1, by simp [i2], ?_, ?_⟩
-    · simp [i3, expectedGroup, ht]
-    · simp [i4, addrOf, ht]
+    refine ⟨i1, by simp [i2], by simp [i3], by rw [hideal, ← i4], by simp [i5]⟩
 
 /-- a direct connection on which every call returns `Ok` without upgrading answers every request -/
 theorem serve_all_ok (c : Consts) (svc : Service) :
@@ -174,170 +217,40 @@ theorem serve_all_ok (c : Consts) (svc : Service) :
     simp only [List.map_cons, serve, hr.1, hr.2]
     simp [this.1, this.2]
 
-/-- under the hypotheses nothing ever dies, so the specification is the list of direct groups -/
-theorem idealRun_good (w : World) (hs : StaticResolver w) :
-    ∀ (rs : List Request) (k : Nat), (∀ r ∈ rs, Good w r) →
-      idealRun w fixedResolverAddr k [] rs = rs.map (expectedGroup w) := by
-  intro rs
-  induction rs with
-  | nil => intro _ _; rfl
-  | cons r rs ih =>
-    intro k hg
-    obtain ⟨i, a, svc, hsel, _, hres, hsvc, _, hok, hnu, _⟩ := hg r (by simp)
-    have ht := target_of_good hsel hres hsvc
-    have hrk : resolveAddr w fixedResolverAddr k i = some a := by
-      rw [resolveAddr_static w hs]; exact hres
-    simp only [idealRun, hsel, hrk, Option.bind_some, hsvc, Option.map_some, List.map_cons]
-    simp only [List.contains_nil, Bool.false_eq_true, if_false, hok, hnu]
-    simp only [Bool.not_true, Option.isSome_none, Bool.or_self, Bool.false_eq_true, if_false]
-    rw [ih (k + 1) (fun x hx => hg x (by simp [hx]))]
-    simp [expectedGroup, ht]
+/-- a request that is routed to `a` reaches the service there, which keeps its connection -/
+theorem good_routed (w : World) (r0 : Request) (hg : Good w r0) (a : String) (svc : Service)
+    (ha : addrOf w r0 = some a) (hsvc : w.svcAt a = some svc) :
+    (callOne w.consts svc (rewrite r0)).ok = true ∧ (callOne w.consts svc (rewrite r0)).upgraded = none ∧
+    expectedGroup w r0 = (callOne w.consts svc (rewrite r0)).out := by
+  unfold Good at hg
+  unfold addrOf target at ha
+  unfold expectedGroup target
+  cases hsel : selectIface (rewrite r0) with
+  | noDot => simp [hsel] at ha
+  | badArgs => simp [hsel] at ha
+  | iface i =>
+    rw [hsel] at hg ha
+    simp only at ha
+    cases hr : resolveAddr w 0 i with
+    | none => simp [hr] at ha
+    | some a' =>
+      cases hs' : w.svcAt a' with
+      | none => simp [hr, hs'] at ha
+      | some svc' =>
+        have : a' = a := by simpa [hr, hs'] using ha
+        subst this
+        rw [hsvc] at hs'
+        cases hs'
+        obtain ⟨_, h⟩ := hg
+        obtain ⟨_, hok, hnu, _⟩ := h a' svc hr hsvc
+        simp [hr, hsvc, hok, hnu]
 
 theorem copyLoop_eq_flatten (l : List Bytes) : copyLoop l = l.flatten := by
   induction l with
   | nil => rfl
   | cons c cs ih => simp [copyLoop, ih]
 
-end Proxy
-end VV
-
-/-! ### the patched router (Model.ProxyFixed) -/
-
-namespace VV
-namespace Proxy
-
-/-- hypotheses of `C18_transparent_after_patches` for one request: nothing about dots,
-    resolution or reachability any more — only that a `GetInterfaceDescription` is
-    well typed when it has parameters, that the interface name is not empty, and
-    that a service that *is* reached answers properly and keeps the connection -/
-def GoodFixed (w : World) (ra : String) (r0 : Request) : Prop :=
-  match selectIface (rewrite r0) with
-  | .noDot => True
-  | .badArgs => (rewrite r0).parameters = none
-  | .iface i =>
-    i ≠ "" ∧
-    ∀ a svc, resolveAddr w ra 0 i = some a → w.svcAt a = some svc →
-      (rewrite r0).upgrade ≠ some true ∧
-      (callOne w.consts svc (rewrite r0)).ok = true ∧
-      (callOne w.consts svc (rewrite r0)).upgraded = none ∧
-      (isOneway (rewrite r0) = true ∨ Final (callOne w.consts svc (rewrite r0)).out)
-
-def CoherentFixed (w : World) (ra : String) (st : St) : Prop :=
-  st.lastIface = "" ∨ resolveAddr w ra 0 st.lastIface = some st.address
-
-theorem routeFixed_spec (w : World) (hs : StaticResolver w) (ra : String) (st : St)
-    (hc : CoherentFixed w ra st) (i : String) (hne : i ≠ "") :
-    (routeFixed w ra st i).1 = resolveAddr w ra 0 i ∧ CoherentFixed w ra (routeFixed w ra st i).2 := by
-  unfold routeFixed
-  by_cases h1 : (i == st.lastIface) = true
-  · have e : i = st.lastIface := by simpa using h1
-    rw [if_pos h1]
-    rcases hc with h0 | h0
-    · exact absurd (e.trans h0) hne
-    · exact ⟨by rw [e, h0], Or.inr h0⟩
-  · rw [if_neg h1]
-    by_cases h2 : (i == resolverIfaceName) = true
-    · rw [if_pos h2]
-      have hr : resolveAddr w ra 0 i = some ra := by unfold resolveAddr; rw [if_pos h2]
-      exact ⟨hr.symm, Or.inr hr⟩
-    · rw [if_neg h2]
-      have hr : resolveAddr w ra 0 i = w.resolve st.nResolve i := by
-        unfold resolveAddr; rw [if_neg h2]; exact hs 0 st.nResolve i
-      cases hres : w.resolve st.nResolve i with
-      | none =>
-        refine ⟨by rw [hr, hres], ?_⟩
-        rcases hc with h0 | h0
-        · exact Or.inl h0
-        · exact Or.inr h0
-      | some a =>
-        refine ⟨by rw [hr, hres], Or.inr ?_⟩
-        show resolveAddr w ra 0 i = some a
-        rw [hr, hres]
-
-/-- one request through the patched loop is one step of the specification -/
-theorem stepFixed_good (w : World) (hs : StaticResolver w) (ra : String) (st : St)
-    (hc : CoherentFixed w ra st) (r0 : Request) (hg : GoodFixed w ra r0) (k : Nat) (rs : List Request) :
-    ∃ out st' sent, stepFixed w ra st r0 = .next out st' sent ∧ CoherentFixed w ra st' ∧
-      ∃ k', idealRun w ra k [] (r0 :: rs) = out :: idealRun w ra k' [] rs := by
-  unfold GoodFixed at hg
-  unfold stepFixed
-  cases hsel : selectIface (rewrite r0) with
-  | noDot =>
-    refine ⟨localReply (rewrite r0) (errInterfaceNotFound (rewrite r0).method), st, [], ?_, hc, k, ?_⟩
-    · simp only [hsel]
-    · simp [idealRun, hsel]
-  | badArgs =>
-    rw [hsel] at hg
-    simp only at hg
-    refine ⟨localReply (rewrite r0) (errInvalidParameter "parameters"), st, [], ?_, hc, k, ?_⟩
-    · simp [hsel, hg]
-    · simp [idealRun, hsel, hg]
-  | iface i =>
-    rw [hsel] at hg
-    obtain ⟨hne, hsvc⟩ := hg
-    obtain ⟨hr1, hr2⟩ := routeFixed_spec w hs ra st hc i hne
-    have hk : resolveAddr w ra k i = resolveAddr w ra 0 i := resolveAddr_static w hs ra k i
-    cases hrf : routeFixed w ra st i with
-    | mk oa st' =>
-      rw [hrf] at hr1 hr2
-      simp only at hr1 hr2
-      cases oa with
-      | none =>
-        refine ⟨localReply (rewrite r0) (errInterfaceNotFound i), st', [], ?_, hr2, k + 1, ?_⟩
-        · simp only [hsel, hrf]
-        · simp [idealRun, hsel, hk, ← hr1]
-      | some a =>
-        cases hs' : w.svcAt a with
-        | none =>
-          refine ⟨localReply (rewrite r0) (errInterfaceNotFound i), st', [], ?_, hr2, k + 1, ?_⟩
-          · simp only [hsel, hrf, hs']
-          · simp [idealRun, hsel, hk, ← hr1, hs']
-        | some svc =>
-          obtain ⟨hup, hok, hnu, hfin⟩ := hsvc a svc hr1.symm hs'
-          have hideal : idealRun w ra k [] (r0 :: rs) =
-              (callOne w.consts svc (rewrite r0)).out :: idealRun w ra (k + 1) [] rs := by
-            simp [idealRun, hsel, hk, ← hr1, hs', hok, hnu]
-          by_cases how : isOneway (rewrite r0) = true
-          · refine ⟨[], st', [(a, rewrite r0)], ?_, hr2, k + 1, ?_⟩
-            · simp only [hsel, hrf, hs', how, if_true]
-            · rw [hideal, C04_no_reply_for_oneway w.consts svc (rewrite r0) how]
-          · have hfin' : forwardReplies (callOne w.consts svc (rewrite r0)).out =
-                ((callOne w.consts svc (rewrite r0)).out, true) := by
-              rcases hfin with h | h
-              · exact absurd h how
-              · exact h
-            have h2 : ((rewrite r0).upgrade == some true) = false := by
-              cases hu : (rewrite r0).upgrade with
-              | none => rfl
-              | some b => cases b with
-                | false => rfl
-                | true => exact absurd hu hup
-            refine ⟨(callOne w.consts svc (rewrite r0)).out, st', [(a, rewrite r0)], ?_, hr2, k + 1, hideal⟩
-            simp only [hsel, hrf, hs']
-            simp [how, hok, h2, hfin']
-
-theorem runFixed_good (w : World) (hs : StaticResolver w) (ra : String) :
-    ∀ (rs : List Request) (st : St) (k : Nat), CoherentFixed w ra st → (∀ r ∈ rs, GoodFixed w ra r) →
-      (runFixed w ra st (rs.map .req)).status = .eof ∧
-      (runFixed w ra st (rs.map .req)).groups = idealRun w ra k [] rs := by
-  intro rs
-  induction rs with
-  | nil => intro st k _ _; simp [runFixed, idealRun]
-  | cons r rs ih =>
-    intro st k hc hg
-    obtain ⟨out, st', sent, hstep, hc', k', hideal⟩ :=
-      stepFixed_good w hs ra st hc r (hg r (by simp)) k rs
-    have := ih st' k' hc' (fun x hx => hg x (by simp [hx]))
-    simp only [List.map_cons, runFixed, hstep]
-    exact ⟨this.1, by rw [hideal, this.2]⟩
-
-end Proxy
-end VV
-
 /-! ### the byte-level loop refines `run` on the frames of the stream -/
-
-namespace VV
-namespace Proxy
 
 theorem clientFrames_eq (dec : Bytes → Frame) (total : Bytes) :
     clientFrames dec total =
@@ -349,11 +262,6 @@ theorem clientFrames_eq (dec : Bytes → Frame) (total : Bytes) :
   cases splitNul total with
   | none => simp
   | some pq => simp
-
-theorem run_single_next (w : World) (st st' : St) (r : Request) (out : List Reply) (sent : List (String × Request))
-    (h : step w st r = .next out st' sent) :
-    (run w st [.req r]).groups = [out] ∧ (run w st [.req r]).sent = sent ∧ (run w st [.req r]).status = .eof := by
-  simp [run, h]
 
 theorem bridgeLoop_spec (w : World) (dec : Bytes → Frame) :
     ∀ (fuel : Nat) (st : St) (rd : Rd), NoEmpty rd.reads →
